@@ -308,6 +308,11 @@ func (x *X) diffOracle(prop string, op Op, o, ref *Outcome, data []store.Series)
 		x.Probe("order-sensitive-skipped")
 		return
 	}
+	if d.Kind == "value" && illConditioned(op, data) != "" {
+		x.R.Skipped = "ill-conditioned"
+		x.Probe("ill-conditioned-skipped")
+		return
+	}
 	x.Viol(prop, "diff", key(d.Kind), fmt.Sprintf("%s [%d..%d step %d]: %s", op.Q, op.Start, op.End, op.Step, d.Detail))
 }
 
@@ -380,6 +385,36 @@ func illConditioned(op Op, data []store.Series) string {
 			o := RefQueryPerm(sop, data, op.Eng.LookbackMs, seed)
 			if o.Res == nil || relSpread(o.Res, base.Res) > 1e-12 {
 				return q
+			}
+		}
+	}
+	// A float-adding aggregation that is itself well-conditioned can still sit exactly on a
+	// discontinuity of what is built on it (avg(m) % 1 where the reference's mean is a whole
+	// number and the engine's, added in another order, is one ulp below it). The reference is
+	// asked again with that sub-expression moved by 1e-13 relative either way, four orders of
+	// magnitude below the comparison tolerance: if its own answer then leaves the tolerance, the
+	// query's value at this point is not defined "up to floating-point summation order".
+	if len(subs) > 0 {
+		whole := expr.String()
+		full := op
+		full.Q = whole
+		base := RefQuery(full, data, op.Eng.LookbackMs)
+		if base.Res != nil {
+			for _, q := range subs {
+				if q == whole || !strings.Contains(whole, q) {
+					continue
+				}
+				for _, f := range []string{"1.0000000000001", "0.9999999999999"} {
+					pop := op
+					pop.Q = strings.ReplaceAll(whole, q, "("+q+" * "+f+")")
+					if _, err := parser.ParseExpr(pop.Q); err != nil {
+						continue
+					}
+					o := RefQuery(pop, data, op.Eng.LookbackMs)
+					if o.Res != nil && Compare(o.Res, base.Res, Tol).Kind != "" {
+						return q
+					}
+				}
 			}
 		}
 	}
